@@ -72,6 +72,10 @@ def gen_history(rng, nops, keys, mix):
                 probe = probe[:-1] + bytes([min(255, probe[-1] + rng.choice([0, 1]))]) + (b'' if r < 0.25 else b'\x01')
             if r > 0.9:
                 probe = b'\0' if rng.random() < .5 else b'\xff\xff\xff'
+            elif 0.5 <= r < 0.62 and len(probe) > 1:      # a proper prefix of a stored key, from a buffer of its own: sorts before it
+                probe = probe[:rng.randrange(1, len(probe))]
+            elif 0.62 <= r < 0.7:                          # a stored key extended by one byte: sorts right after it
+                probe = probe + bytes([rng.choice([0, 0, 1, 255])])
             n = rng.choice([0, 1, 2, len(keys) + 2, len(keys) + 2])
             ops.append('near %s %d' % (hexs(probe), n))
         else:
@@ -337,7 +341,7 @@ def tree_check(ctx, props, focus, replay=None):
         kind = rng.choice(['small', 'small', 'str', 'bin', 'case'])
         nk = rng.choice([3, 6, 10, 16, 26]) if kind == 'small' else rng.choice([6, 20, 40])
         keys = key_universe(rng, nk, kind)
-        cmpn = rng.choice(['byte', 'byte', 'rev', 'len', 'ci', 'errno']) if kind != 'case' else 'ci'
+        cmpn = rng.choice(['byte', 'default', 'default', 'rev', 'len', 'ci', 'errno']) if kind != 'case' else 'ci'
         hists.append((['cmp ' + cmpn, 'dump 1'], gen_history(rng, 150 if quick else 300, keys, mixes[mixname])))
     # histories with more than 256 traversal starts (8-bit epoch) and root changes in between
     for i in range(2 if quick else 12):
@@ -410,6 +414,17 @@ def tree_check(ctx, props, focus, replay=None):
         for k in ks:
             ops += ['near %s 0' % hexs(k), 'near %s 1' % hexs(k[:2] + b'\x34'), 'near %s %d' % (hexs(k[:2] + b'\x36'), na + nd + 2)]
         hists.append((['cmp byte', 'dump 0'], ops))
+    # chains of keys that are prefixes of one another (binary, with NULs): every stored key, every proper prefix of one and every
+    # one-byte extension is probed from a buffer of its own, under both orderings
+    for chain in ([b'a', b'ab', b'abc', b'abcd', b'abd', b'b', b'ba'], [b'\0', b'\0\0', b'\0\0\0', b'\0\1', b'\1', b'\1\0'],
+                  [b'key', b'key\0', b'key\0x', b'keys', b'kez', b'k'], [b'abcdefgh', b'abcdefghi', b'abcdefg', b'abcdefgh\0', b'abcdefgi']):
+        for sub in (chain, chain[1:], chain[::2], chain[1::2]):
+            probes = list(dict.fromkeys([k[:j] for k in chain for j in range(1, len(k) + 1)] + [k + b for k in chain for b in (b'\0', b'\xff')]))
+            for cmpname in ('default', 'byte', 'rev'):
+                ops = ['put %s 01' % hexs(k) for k in sub]
+                for q in probes:
+                    ops.append('near %s %d' % (hexs(q), rng.choice([0, 1, len(sub) + 2])))
+                hists.append((['cmp ' + cmpname, 'dump 0'], ops))
     # large histories, structure summarised
     for i in range(1 if quick else 6):
         nk = 600 if quick else rng.choice([1000, 3000, 5000])
